@@ -353,7 +353,7 @@ func (e *Exec) execLoop(h *ssa.BasicBlock, loop map[*ssa.BasicBlock]bool, pre *S
 	if ri := rangeIndexInvariant(h); ri != nil && e.fc != nil {
 		have := false
 		for _, c := range invs {
-			if strings.Contains(c.Text, "rangeindex") {
+			if strings.Contains(c.Text, "-1 <= rangeindex") {
 				have = true
 			}
 		}
